@@ -370,12 +370,39 @@ func (e *env) buildTx(st *simkit.Step) (tx *types.Tx, adversarial string) {
 		}
 		return e.included[int(st.V)%len(e.included)], "replay of an included transaction"
 	case kMutated:
+		// one signed field is changed after signing (the signature stays): every field of the body in
+		// turn, including the chain id hash of a transaction that was signed for another chain and is
+		// re-stamped with the local one (cross-chain replay)
 		tx := simnode.SignedTx(acc, nonce, net.Accounts[to].Addr, amt, types.TxType_TRANSFER, nil, cid, 0)
-		tx.Body.Amount = new(big.Int).Add(amt, big.NewInt(1)).Bytes()
+		what := "altered after signing"
+		switch (st.V / 2) % 8 {
+		case 0:
+			tx.Body.Amount = new(big.Int).Add(amt, big.NewInt(1)).Bytes()
+		case 1:
+			tx.Body.Recipient = net.Accounts[(to+1)%len(net.Accounts)].Addr
+			if bytes.Equal(tx.Body.Recipient, net.Accounts[to].Addr) {
+				tx.Body.Amount = new(big.Int).Add(amt, big.NewInt(1)).Bytes()
+			}
+		case 2:
+			tx.Body.Payload = []byte("x")
+		case 3:
+			tx.Body.GasLimit++
+		case 4:
+			tx.Body.GasPrice = []byte{1}
+		case 5:
+			tx.Body.Type = types.TxType_NORMAL
+		case 6:
+			tx.Body.Nonce = nonce + 1
+		case 7:
+			foreign := simnode.SignedTx(acc, nonce, net.Accounts[to].Addr, amt, types.TxType_TRANSFER, nil, common.Hasher([]byte("another chain")), 0)
+			foreign.Body.ChainIdHash = cid
+			tx = foreign
+			what = "signed for another chain and re-stamped with the local chain id"
+		}
 		if st.V%2 == 0 {
 			tx.Hash = tx.CalculateTxHash()
 		}
-		return tx, "altered after signing"
+		return tx, what
 	case kNonceDup:
 		if e.chainN[from] == 0 {
 			return nil, ""
